@@ -93,6 +93,17 @@ class Conc:
                 v = self.ev(e[2][0])
                 n = self.nv.get(name.rsplit("::", 1)[0])
                 return ("some", v) if (n is not None and 0 <= v < n) else ("none",)
+            if tail in ("checked_add", "checked_sub", "checked_mul") and len(e[2]) == 2:
+                # iN::checked_op / uN::checked_op: Some(result) when it fits the type, None otherwise
+                import re as _re
+                m_ = _re.search(r"\b([iu](?:8|16|32|64|128|size))\b", name)
+                if m_ and m_.group(1) in BITS:
+                    ty = m_.group(1)
+                    a, b = self.ev(e[2][0]), self.ev(e[2][1])
+                    r = a + b if tail == "checked_add" else (a - b if tail == "checked_sub" else a * b)
+                    bits = BITS[ty]
+                    lo, hi = (-(1 << (bits - 1)), (1 << (bits - 1)) - 1) if ty[0] == "i" else (0, (1 << bits) - 1)
+                    return ("some", r) if lo <= r <= hi else ("none",)
             if tail == "from_ne_bytes":
                 arr = e[2][0]
                 if arr[0] == "array":
